@@ -71,7 +71,35 @@ func cmdRun(args []string) {
 		pprof.StartCPUProfile(f)
 		defer pprof.StopCPUProfile()
 	}
-	hr := e.Explore(fn, ExploreOpts{MaxViolationsPerLabel: 1, SchedChoice: os.Getenv("VERIF_SCHED") != ""})
+	opts := ExploreOpts{MaxViolationsPerLabel: 1, SchedChoice: os.Getenv("VERIF_SCHED") != ""}
+	if vf := os.Getenv("VERIF_VECTOR"); vf != "" {
+		data, err := os.ReadFile(vf)
+		if err != nil {
+			panic(err)
+		}
+		var f struct {
+			Vector []VecEntry     `json:"vector"`
+			Bounds map[string]int `json:"bounds"`
+		}
+		json.Unmarshal(data, &f)
+		opts.Vector = f.Vector
+		if opts.Vector == nil {
+			opts.Vector = []VecEntry{}
+		}
+		for k, v := range f.Bounds {
+			e.bounds[k] = v
+		}
+	}
+	hr := e.Explore(fn, opts)
+	for _, o := range hr.Observes {
+		fmt.Fprintf(os.Stderr, "OBSERVE %s = %s\n", o.Label, strings.Join(o.Vals, " "))
+	}
+	if os.Getenv("VERIF_DUMPVIOL") != "" {
+		for i, v := range hr.Violations {
+			data, _ := json.Marshal(map[string]interface{}{"vector": v.Vector, "bounds": e.bounds, "label": v.Label})
+			os.WriteFile(fmt.Sprintf("%s.%d.json", os.Getenv("VERIF_DUMPVIOL"), i), data, 0o644)
+		}
+	}
 	out := map[string]interface{}{
 		"paths": hr.Paths, "steps": hr.Steps, "outcomes": hr.Outcomes, "inconclusive": hr.Inconclusive,
 		"asserts_ok": hr.AssertsOK, "reached": keysOf(hr.Reached), "solver_queries": hr.Solver.Queries,
